@@ -320,8 +320,8 @@ func planC19(tier string, seed int64) (*Plan, error) {
 	p.Jobs = append(p.Jobs, job("H_c19_filter_hist", "k", 2))
 	p.Jobs = append(p.Jobs, job("H_c19_filter_hist", "k", 2, "klen", 2, "alpha", "a!"))
 	p.Jobs = append(p.Jobs, job("H_c19_filter_hist", "k", 2, "fromstring", 1, "alpha", "a!b"))
-	p.Jobs = append(p.Jobs, job("H_c19_filter_hist", "k", 2, "klen", 4, "alpha", "ab"))
 	if thorough {
+		p.Jobs = append(p.Jobs, job("H_c19_filter_hist", "k", 2, "klen", 4, "alpha", "ab"))
 		p.Jobs = append(p.Jobs, job("H_c19_filter_hist", "k", 3, "alpha", "a!"))
 	}
 	p.Bounds = map[string]interface{}{
@@ -330,7 +330,7 @@ func planC19(tier string, seed int64) (*Plan, error) {
 		"resolvers":        fmt.Sprintf("all byte strings of length 0..%d; length %d over {&,#,x,1,;,\\,a,C3,A9}; &#x h{1..%d} ; (plus 8..17-digit references with a concrete prefix and two symbolic digits) and &# d{1..%d} ; with symbolic digits; & name{1..%d} ; with symbolic letters", nRes, nRes+2, kHex, kDec, kEnt),
 		"ToLinkReference":  fmt.Sprintf("all byte strings of length 0..%d plus length %d over {a,A,space,tab,C3,9F}; symbolic per-letter case flips and whitespace-run rewriting", nLink, nLink+2),
 		"case folding":     "every code point U+0000..U+1FFFF except surrogates (symbolic rune, one job per block of 256): a label holding the rune and the label holding the next member of its simple case folding orbit (Go's unicode.SimpleFold, interpreted) between symbolic ASCII letters normalise to the same string",
-		"BytesFilter":      "histories NewBytesFilter; Add×base; Extend; Extend; Add with 5-6 symbolic keys over a 5-byte alphabet in which four bytes share a hash bucket (1-byte keys), and 2-byte keys over {a,!}; operation histories of 2 (thorough 3) steps over a growing pool of filters, each step a solver-enumerated choice among Add(key) on any filter and deriving a new filter from any filter by Extend() / Extend(k) / Extend(k1,k2) / ExtendString(\"\") / ExtendString(\"k1,k2\"), every filter compared with its set model on every key after every step (1-byte keys over {a,!,A1,b}, 2-byte keys over {a,!}, 4-byte keys over {a,b}, and a pool started with NewBytesFilterString)",
+		"BytesFilter":      "histories NewBytesFilter; Add×base; Extend; Extend; Add with 5-6 symbolic keys over a 5-byte alphabet in which four bytes share a hash bucket (1-byte keys), and 2-byte keys over {a,!}; operation histories of 2 (thorough 3) steps over a growing pool of filters, each step a solver-enumerated choice among Add(key) on any filter and deriving a new filter from any filter by Extend() / Extend(k) / Extend(k1,k2) / ExtendString(\"\") / ExtendString(\"k1,k2\"), every filter compared with its set model on every key after every step (1-byte keys over {a,!,A1,b}, 2-byte keys over {a,!}, a pool started with NewBytesFilterString; thorough: 4-byte keys over {a,b})",
 		"outside":          "longer inputs; histories longer than 6 operations",
 	}
 	p.Rule = "one job per (function, length/template); all paths of each job explored"
@@ -1023,7 +1023,9 @@ func planC08(tier string, seed int64) (*Plan, error) {
 		jobs = append(jobs, job("H_c08_quote", "cfg", c, "seed", sd, "pos", len(sd), "window", 1, "nest", 2))
 	}
 	// long documents (plans3.go): inside a quote the container never closes, so per-document tables keep growing
+	longDocMaxN = 70
 	lj, lb := longDocJobs("H_c08_quote", thorough, false, []string{coreU, gfmS})
+	longDocMaxN = 40
 	jobs = append(jobs, lj...)
 	// corpus: W(C',1) over documents without TAB/CR
 	docs, err := LoadCorpus()
@@ -1135,7 +1137,11 @@ func planC09(tier string, seed int64) (*Plan, error) {
 		nl = 5
 	}
 	jobs = append(jobs, job("H_c09_indep", "cfg", core, "an", 2, "bn", nl, "tokensA", listToks, "tokensB", listToks))
-	jobs = append(jobs, job("H_c09_indep", "cfg", gfm, "an", 3, "bn", nl-1, "tokensA", listToks, "tokensB", listToks))
+	if thorough {
+		jobs = append(jobs, job("H_c09_indep", "cfg", gfm, "an", 3, "bn", nl-1, "tokensA", listToks, "tokensB", listToks))
+	} else {
+		jobs = append(jobs, job("H_c09_indep", "cfg", gfm, "an", 2, "bn", 3, "tokensA", listToks, "tokensB", listToks))
+	}
 	jobs = append(jobs, job("H_c09_indep", "cfg", gfm, "an", 3, "bn", nl-2, "tokensA", tblToks, "tokensB", tblToks))
 	// A closed by construction: a one-line or closed HTML block / a closed fence, with a symbolic byte inside; B free
 	for i, ta := range []tmpl{{"<!XX>", 2, 2}, {"<!DOCTYPE hXml>", 11, 1}, {"<?X?>", 2, 1}, {"<!--X-->", 4, 1}, {"<![CDATA[X]]>", 9, 1}, {"<pre>X</pre>", 5, 1}, {"a\n\n<!X>", 5, 1}, {"```\nX\n```", 4, 1}, {"~~~~\nX\n~~~~\n", 5, 1}, {"<div>\nX\n</div>\n", 6, 1}} {
@@ -1206,7 +1212,7 @@ func planC09(tier string, seed int64) (*Plan, error) {
 	p.Bounds = map[string]interface{}{
 		"S(an)xS(bn)":   "A and B jointly symbolic, every byte string: lengths (an,bn) with an+bn<=2 x {core unsafe, GFM safe} and (2,1) core (thorough: all an+bn<=3 both configurations, (2,2), (3,0), (0,3))",
 		"alphabets":     fmt.Sprintf("A of length %d and B of length %d over the same alphabet; A of %d with B of 1 and A of 1 with B of %d over neighbouring alphabets (quick: a seeded third of them): %q", na, nb, na+1, na+1, alphas),
-		"tokens":        fmt.Sprintf("A every sequence of 2 and B of %d tokens (GFM: 3 and %d) from {'- ', '-', LF, 2 spaces, a} (empty list items, bare markers with the content on the next line); A of 3 and B of %d tokens from table fragments with code spans and escaped pipes (GFM)", nl, nl-1, nl-2),
+		"tokens":        fmt.Sprintf("A every sequence of 2 and B of %d tokens (GFM: 2 and 3; thorough 3 and %d) from {'- ', '-', LF, 2 spaces, a} (empty list items, bare markers with the content on the next line); A of 3 and B of %d tokens from table fragments with code spans and escaped pipes (GFM)", nl, nl-1, nl-2),
 		"corpus":        fmt.Sprintf("%d seeded (closed corpus document A, offset) pairs with one symbolic byte and a free 1-byte B; the same for B with a free 1-byte A; %d pairs of corpus documents with one symbolic byte in each", nwin, nwin/2),
 		"closed(A)":     "syntactic sufficient condition assumed by the solver: no < [ CR in A, no run of three backticks or tildes; last non-blank line of A has no TAB and no run of 4 spaces. B: no [ and no CR. In addition 10 templates of A closed by construction (one-line HTML blocks of types 2-5, <pre>, <div> block, closed fences) with a symbolic byte inside and a free B",
 		"references":    "11 reference templates (6 of them ending in a one-line/closed HTML block or closed fence directly in front of the moved definitions) x 4 whitespace spellings inside labels x every per-letter case flip of every use of a label (symbolic bits); plus a 1-byte symbolic window (not ` ~ < : CR) at seeded offsets of X under a seeded case-flip mask; the same behind an unrelated paragraph of 300, 1100 and 4200 bytes",
@@ -1987,19 +1993,19 @@ func planC02(tier string, seed int64) (*Plan, error) {
 		}
 	}
 	// emphasis against a reference implementation of the delimiter-run algorithm (6.2): see harness/h/c02emph.go
-	ne := 5
+	ne := 4
 	if thorough {
 		ne = 6
 	}
 	for n := 1; n <= ne; n++ {
 		jobs = append(jobs, job("H_c02_emph", "n", n))
 	}
-	jobs = append(jobs, job("H_c02_emph", "n", ne+2, "alpha", "*a"), job("H_c02_emph", "n", ne+1, "alpha", "*_a "), job("H_c02_emph", "n", ne+2, "alpha", "_a."))
+	jobs = append(jobs, job("H_c02_emph", "n", 7, "alpha", "*a"), job("H_c02_emph", "n", ne+1, "alpha", "*_a "), job("H_c02_emph", "n", ne+2, "alpha", "_a."))
 	if thorough {
 		jobs = append(jobs, job("H_c02_emph", "n", 10, "alpha", "*a"), job("H_c02_emph", "n", 8, "alpha", "*_a"))
 	}
 	// code spans against a reference written from 6.1
-	nc := 8
+	nc := 7
 	if thorough {
 		nc = 10
 	}
@@ -2071,7 +2077,7 @@ func planC02(tier string, seed int64) (*Plan, error) {
 		"enumerated": "leading indentation 0-3, fence length 3-5, link style inline/full/collapsed/shortcut, hard break as backslash or two spaces, Setext vs ATX, ATX closing sequence, tab vs spaces for indented code (quick: the default spelling + 3 of 16 combinations per tree; thorough: 19 combinations)",
 		"tabs":       fmt.Sprintf("%d cases: chains of 1-3 container markers (block quote, bullet item) followed by every run of <= %d spaces/tabs and two symbolic letters; expected structure (paragraph, or indented code with its leading columns) from column arithmetic in the harness", ntabs, wsMax),
 		"refdef":     fmt.Sprintf("%d link reference definition boundary shapes (4.7): whitespace between colon and destination {space, line ending, line ending + 2 spaces, none} x destination {bare, <...>} x title {none; \" ' ( delimited, on one or two lines, separated by a space / a line ending / a line ending and a space} x trailer {nothing, a space, more text}, optionally paragraph text directly behind the definition (indented 0, 1, 3, 4 spaces or a tab), followed by a shortcut reference; label, destination, title and trailer letters symbolic; expected: definition with title / definition without title plus a paragraph / no definition, from 4.7", nref),
-		"emphasis":   fmt.Sprintf("one-line paragraphs of length 1..%d with every byte symbolic over {*, _, space, '.', ',', '!', a-z} (no leading/trailing space, some non-delimiter character, not starting with a bullet marker), and of length %d over {*,a}, %d over {*,_,a,space}, %d over {_,a,.} (thorough adds 10 over {*,a}, 8 over {*,_,a}); expected HTML from a reference implementation, in the harness, of the specification's delimiter-run classification and 'process emphasis' procedure", ne, ne+2, ne+1, ne+2),
+		"emphasis":   fmt.Sprintf("one-line paragraphs of length 1..%d with every byte symbolic over {*, _, space, '.', ',', '!', a-z} (no leading/trailing space, some non-delimiter character, not starting with a bullet marker), and of length 7 over {*,a}, %d over {*,_,a,space}, %d over {_,a,.} (thorough adds 10 over {*,a}, 8 over {*,_,a}); expected HTML from a reference implementation, in the harness, of the specification's delimiter-run classification and 'process emphasis' procedure", ne, ne+1, ne+2),
 		"code spans": fmt.Sprintf("one paragraph of length 2..%d with every byte symbolic over {backtick, space, LF, a-z} (no blank line, no line starting/ending with a space, no line starting with three backticks); expected HTML from a reference implementation of 6.1 in the harness", nc),
 		"html":       fmt.Sprintf("%d HTML block shapes (4.6): start conditions 1-7 (type 1: every pair of opening and closing name from pre/script/style/textarea; type 6: 12 block tag names, opening and closing form; type 7: an unknown tag alone on its line), 0-3 columns of indentation, end condition on the first line or on a later line, text behind the end condition, a blank line for types 6-7; the letter case of the first, middle and last tag-name letter is symbolic, the other letters lower or upper case; content letters symbolic", nhtml),
 		"spec":       fmt.Sprintf("%d examples of _test/spec.json (expected HTML from the file): final newline removed; an unrelated paragraph / ATX heading / thematic break with symbolic letters placed before; and, for the %d examples whose expected HTML ends in a closed block (p, h1-6, hr, blockquote, ul, ol), an extra final newline and the same unrelated block placed after; %d examples end in a code or HTML block and are skipped for the 'after' rewrites by that stated rule", nspec, nspec-nskip, nskip),
